@@ -90,25 +90,30 @@ def ob_weights(ctx, stride, derivative):
 
     w = cubic_bspline_interpolation_weights(stride, derivative)
     ctx.eq(torch.tensor(list(w.shape)), torch.tensor([stride, 4]), "weight table has shape (stride, 4)")
-    g = ctx.reals("g", 0.75, nice=(-4, 4))
-    dlt = ctx.reals("d", -1.5, nice=(-4, 4))
+    g = ctx.reals("g", 0.75, ge=-4, le=4, nice=(-4, 4))
+    dlt = ctx.reals("d", -1.5, ge=-4, le=4, nice=(-4, 4))
     k = torch.arange(6, dtype=torch.float32)
     c = (g * k + dlt).reshape(1, 1, 6)
     out = evaluate_cubic_bspline(c, stride=stride, derivative=derivative)
     t = 1 + torch.arange(3 * stride, dtype=torch.float32) / stride
+    # The weight table is a float32 tensor: for strides <= 6 every entry is identified with its exact rational (k / (6 s^3) has a
+    # small denominator); for larger strides an entry and its exact value agree only up to float32 resolution, so the same
+    # identities are claimed with a stated tolerance (|g|, |d|, |c| <= 4)
+    exact = stride <= 6
+    same = (lambda a, b, what: ctx.eq(a, b, what)) if exact else (lambda a, b, what: ctx.close(a, b, 2e-4, what + " (within 2e-4)"))
     if derivative == 0:
-        ctx.eq(out[0, 0], g * t + dlt, "linear precision: coefficients g*k+d reproduce g*t+d")
+        same(out[0, 0], g * t + dlt, "linear precision: coefficients g*k+d reproduce g*t+d")
         ones = evaluate_cubic_bspline(torch.ones(1, 1, 6) * dlt, stride=stride)
-        ctx.eq(ones[0, 0], dlt, "partition of unity")
+        same(ones[0, 0], dlt, "partition of unity")
     elif derivative == 1:
-        ctx.eq(out[0, 0], g, "derivative of the linear spline is its slope (weights sum to 0, first moment 1)")
+        same(out[0, 0], g, "derivative of the linear spline is its slope (weights sum to 0, first moment 1)")
     else:
-        ctx.eq(out[0, 0], torch.zeros(1), f"derivative {derivative} of a linear spline vanishes")
+        same(out[0, 0], torch.zeros(1), f"derivative {derivative} of a linear spline vanishes")
     # table entries against the analytic basis, weighted by symbolic coefficients
-    c4 = ctx.reals("c", [1.0, -0.5, 2.0, 0.25], nice=(-4, 4))
+    c4 = ctx.reals("c", [1.0, -0.5, 2.0, 0.25], ge=-4, le=4, nice=(-4, 4))
     r = torch.arange(stride, dtype=torch.float64) / stride
     ref = sum(c4[m] * B(r + 1 - m, derivative).float() for m in range(4))
-    ctx.eq(w @ c4, ref, f"weights(stride={stride}, derivative={derivative}) . c == sum_m c_m B^(d)(r/s + 1 - m)")
+    same(w.to(c4.dtype) @ c4, ref.to(c4.dtype) if isinstance(ref, torch.Tensor) else ref, f"weights(stride={stride}, derivative={derivative}) . c == sum_m c_m B^(d)(r/s + 1 - m)")
 
 
 def ob_value(ctx, derivative, region):
